@@ -3,7 +3,7 @@
    the emitted protected bytes, the same payload and signature, hence the same to-be-signed bytes
    and the same algorithm gate; therefore what Sign produced still verifies after the round trip. *)
 From Coq Require Import Ascii String ZArith List Lia Bool Arith ZifyBool Permutation.
-From GoCose Require Import Bytes Cbor CborProofs Res GoVal Fx Headers Enc Dec Msg TbsProofs FlowProofs DecProofs HdrProofs EncProofs EncCanon EncDec HdrRoundTrip.
+From GoCose Require Import Bytes Cbor CborProofs Res GoVal Fx Headers Enc Dec Msg TbsProofs FlowProofs DecProofs HdrProofs EncProofs EncCanon EncDec HdrRoundTrip MoreProofs.
 From GoCose.Gen Require Import Generated.
 Import ListNotations.
 Open Scope Z_scope.
@@ -233,6 +233,151 @@ Proof.
   rewrite <- Hpost. apply sign1_sign_then_verify; auto.
   rewrite Hpost. cbn. destruct sig; [contradiction|]. rewrite len_cons. pose proof (len_nonneg sig). lia.
 Qed.
+
+(* ---------- COSE_Sign ---------- *)
+Record sig_typed := mkST { st_p : option (list gv); st_u : option (list gv); st_sig : bytes }.
+
+Definition st_ok (s : sig_typed) : Prop :=
+  bucket_ok (st_p s) /\ bucket_ok (st_u s) /\ prot_limits (st_p s) /\ unprot_limits (st_u s) /\ short (st_sig s) /\ st_sig s <> [].
+
+Definition st_sigv (s : sig_typed) : sigv := mkSig (mkH None (st_p s) None (st_u s)) (Some (st_sig s)).
+
+(* decoded counterpart of one signature *)
+Definition sig_match (s : sig_typed) (s' : sigv) : Prop :=
+  exists pb ub dp du,
+    marshal_protected (sg_h (st_sigv s)) = Acc pb /\ 0 < len pb /\
+    s' = mkSig (mkH (Some pb) (Some dp) (Some ub) (Some du)) (Some (st_sig s)) /\
+    same_view (hmap (st_p s)) dp /\ same_view (hmap (st_u s)) du.
+
+Lemma sig_item_roundtrip s bs :
+  st_ok s -> marshal_signature (st_sigv s) = Acc bs ->
+  exists item s', bs = ser item /\ wf item = true /\ dec_signature_item item = Acc s' /\ sig_match s s' /\
+                  (depth_ok false item 1 = true -> True).
+Proof.
+  intros (Hp & Hu & Lp & Lu & Hsg & Hne) Hm. destruct s as [op ou sig]. unfold st_sigv in *. cbn [st_p st_u st_sig] in *.
+  unfold marshal_signature in Hm. cbn [sg_sig sg_h glen gor] in Hm.
+  destruct (len sig =? 0) eqn:E0; [destruct sig; [contradiction|rewrite len_cons in E0; pose proof (len_nonneg sig); lia]|].
+  unfold headers_marshal in Hm. destruct (ensure_iv (mkH None op None ou)) eqn:Iv; cbn [negb] in Hm; [|discriminate].
+  unfold marshal_protected, marshal_unprotected in *. cbn [rawP rawU hP hU glen] in *. cbn [Z.ltb] in Hm.
+  destruct (enc_protected op) as [pb| | |] eqn:Ep; cbn [bind] in Hm; try discriminate.
+  destruct (enc_unprotected ou) as [ub| | |] eqn:Eu; cbn [bind] in Hm; try discriminate.
+  cbn [fst snd] in Hm. injection Hm as <-.
+  destruct (prot_case op pb Hp Lp Ep) as (m & dp & -> & Sm & Dp & Vp).
+  destruct (unprot_case ou ub 19 Hu Lu Eu) as (wu & du & -> & Wu & Du & Vu).
+  exists (WArr W0 [tbstr m; wu; tbstr sig]), (mkSig (mkH (Some (ser (tbstr m))) (Some dp) (Some (ser wu)) (Some du)) (Some sig)).
+  split; [cbn [ser flat_map]; rewrite app_nil_r, enc_bstr_ser; reflexivity|].
+  split; [cbn [wf forallb length]; rewrite (tbstr_wf _ Sm), Wu, (tbstr_wf _ Hsg); reflexivity|].
+  split.
+  - unfold dec_signature_item, is_arr3. cbn [bstr_or_nil tbstr bind glen]. rewrite E0.
+    unfold dec_headers. fold (tbstr m). rewrite Dp. cbn [bind]. unfold csig_fuel. change 20%nat with (S 19). rewrite Du. cbn [bind].
+    rewrite (ensure_iv_same_view None op None ou _ _ _ _ Vp Vu). rewrite Iv. reflexivity.
+  - split; [|auto]. exists (ser (tbstr m)), (ser wu), dp, du. unfold st_sigv. cbn [st_p st_u st_sig sg_h].
+    unfold marshal_protected. cbn [rawP glen hP]. cbn [Z.ltb]. rewrite Ep.
+    split; [reflexivity|]. split; [pose proof (ser_nonempty (tbstr m)); unfold len; lia|]. auto.
+Qed.
+
+Lemma sigs_roundtrip : forall sts bss,
+  Forall st_ok sts -> mapM marshal_opt_signature (map (fun s => Some (st_sigv s)) sts) = Acc bss ->
+  exists items sigs, bss = map ser items /\ forallb wf items = true /\ length items = length sts /\
+                     mapM dec_signature_item items = Acc sigs /\ Forall2 sig_match sts sigs.
+Proof.
+  induction sts as [|s sts IH]; intros bss HF H; cbn [map mapM] in H.
+  - inversion H; subst. exists [], []. repeat split; constructor.
+  - inversion HF as [|? ? Hs HF']; subst. cbn [marshal_opt_signature] in H.
+    destruct (marshal_signature (st_sigv s)) as [bs| | |] eqn:Ms; cbn [bind] in H; try discriminate.
+    destruct (mapM marshal_opt_signature (map (fun s0 => Some (st_sigv s0)) sts)) as [bss'| | |] eqn:Mr; cbn [bind] in H; try discriminate.
+    inversion H; subst. destruct (sig_item_roundtrip s bs Hs Ms) as (item & s' & -> & Wi & Di & Mi & _).
+    destruct (IH bss' HF' eq_refl) as (items & sigs & -> & Ws & Ls & Ds & Fs).
+    exists (item :: items), (s' :: sigs). cbn [map forallb length mapM]. rewrite Wi, Ws, Di, Ds. cbn [bind].
+    repeat split; auto.
+Qed.
+
+(* one decoded signature verifies whenever its source does *)
+Lemma sig_ok_transfer bp payload ext s s' vf :
+  sig_match s s' -> sig_ok bp payload ext (Some (st_sigv s)) vf -> sig_ok bp payload ext (Some s') vf.
+Proof.
+  intros (pb & ub & dp & du & Mp & Lpb & -> & Vp & Vu) (s0 & E & Hv). inversion E; subst s0.
+  eexists. split; [reflexivity|]. apply signature_verify_iff in Hv. apply signature_verify_iff.
+  cbn [sg_sig sg_h st_sigv] in *. destruct Hv as (Hpay & Hsig & Hb & Hg & t & Ht & Hr).
+  split; [exact Hpay|]. split; [exact Hsig|]. split; [exact Hb|]. split.
+  - unfold ensure_verification_alg in *. cbn [hP] in *. destruct Vp as (_ & Va & Vn).
+    destruct (alg_of (st_p s)) as [a|e| |] eqn:A; try discriminate.
+    + replace (alg_of (Some dp)) with (@Acc Z a); [exact Hg|]. symmetry. apply Va. destruct (st_p s); exact A.
+    + destruct e; try discriminate. replace (alg_of (Some dp)) with (@Rej Z EAlgNotFound); [exact Hg|]. symmetry. apply Vn. destruct (st_p s); exact A.
+  - exists t. split; [|exact Hr]. unfold tbs_signature in *. unfold marshal_protected in *. cbn [rawP glen gor hP] in *.
+    replace (0 <? len pb) with true by lia. cbn [Z.ltb] in Ht. rewrite Mp in Ht. exact Ht.
+Qed.
+
+Lemma sig_ok_all bp payload ext : forall sts sigs vfs,
+  Forall2 sig_match sts sigs ->
+  Forall2 (sig_ok bp payload ext) (map (fun s => Some (st_sigv s)) sts) vfs ->
+  Forall2 (sig_ok bp payload ext) (map Some sigs) vfs.
+Proof.
+  induction sts as [|s sts IH]; intros sigs vfs HM HF; inversion HM; subst; cbn [map] in *.
+  - exact HF.
+  - inversion HF; subst. constructor; [eapply sig_ok_transfer; eauto|apply IH; auto].
+Qed.
+
+Lemma concat_map_ser items : concat (map ser items) = flat_map ser items.
+Proof. induction items; cbn; auto. rewrite IHitems. reflexivity. Qed.
+
+(* C01, wire leg, COSE_Sign with any number of signers *)
+Theorem signmsg_wire_verifies op ou payload sts out ext vfs :
+  let m := mkSM (mkH None op None ou) payload (map (fun s => Some (st_sigv s)) sts) in
+  bucket_ok op -> bucket_ok ou -> prot_limits op -> unprot_limits ou -> payload_ok payload ->
+  Forall st_ok sts -> len sts < two64 ->
+  marshal_signmsg m = Acc out -> lib_wf false (tl (tl out)) <> None ->
+  fst (signmsg_verify m ext vfs) = Acc tt ->
+  exists m', unmarshal_signmsg out = Acc m' /\ fst (signmsg_verify m' ext vfs) = Acc tt.
+Proof.
+  intros m Hp Hu Lp Lu Hpl Hst Hlen Hm Hlim Hv. subst m.
+  unfold marshal_signmsg in Hm. cbn [sm_sigs sm_h sm_payload] in Hm.
+  destruct sts as [|s0 sts0]; [discriminate|]. remember (s0 :: sts0) as sts eqn:Es.
+  assert (Hmm : (let* pu := headers_marshal (mkH None op None ou) in
+                 let* ss := mapM marshal_opt_signature (map (fun s => Some (st_sigv s)) sts) in
+                 Acc (enc_head 6 c_CBORTagSignMessage ++ enc_head 4 4 ++ fst pu ++ snd pu ++ enc_gobytes payload ++
+                      enc_head 4 (len ss) ++ concat ss)) = Acc out).
+  { rewrite Es in *. exact Hm. }
+  clear Hm. unfold headers_marshal in Hmm. destruct (ensure_iv (mkH None op None ou)) eqn:Iv; cbn [negb] in Hmm; [|discriminate].
+  unfold marshal_protected, marshal_unprotected in Hmm. cbn [rawP rawU hP hU glen] in Hmm. cbn [Z.ltb] in Hmm.
+  destruct (enc_protected op) as [pb| | |] eqn:Ep; cbn [bind] in Hmm; try discriminate.
+  destruct (enc_unprotected ou) as [ub| | |] eqn:Eu; cbn [bind] in Hmm; try discriminate.
+  destruct (mapM marshal_opt_signature (map (fun s => Some (st_sigv s)) sts)) as [bss| | |] eqn:Ms; cbn [bind] in Hmm; try discriminate.
+  cbn [fst snd] in Hmm.
+  destruct (prot_case op pb Hp Lp Ep) as (mm & dp & -> & Sm & Dp & Vp).
+  destruct (unprot_case ou ub 19 Hu Lu Eu) as (wu & du & -> & Wu & Du & Vu).
+  destruct (sigs_roundtrip sts bss Hst Ms) as (items & sigs & -> & Wi & Li & Di & Fi).
+  set (plw := match payload with Some b => tbstr b | None => WSim W0 22 end).
+  assert (Epl : enc_gobytes payload = ser plw) by (destruct payload; reflexivity).
+  assert (Wpl : wf plw = true) by (destruct payload; [apply tbstr_wf; exact Hpl|reflexivity]).
+  assert (Bpl : bstr_or_nil plw = Acc payload) by (destruct payload; reflexivity).
+  set (env := WArr W0 [tbstr mm; wu; plw; WArr (minw (len items)) items]).
+  assert (Hni : items <> []) by (intros ->; rewrite Es in Li; discriminate Li).
+  assert (Lit : 0 <= len items < two64) by (pose proof (len_nonneg items); unfold len in *; rewrite Li; lia).
+  assert (Eo : out = 216 :: 98 :: ser env).
+  { injection Hmm as <-. rewrite Epl. unfold env. cbn [ser flat_map]. rewrite app_nil_r, concat_map_ser.
+    replace (len (map ser items)) with (len items) by (unfold len; rewrite map_length; reflexivity).
+    unfold enc_head. cbn. rewrite <- !app_assoc. reflexivity. }
+  subst out. cbn [tl] in Hlim.
+  assert (We : wf env = true).
+  { unfold env. cbn [wf forallb length]. rewrite (tbstr_wf _ Sm), Wu, Wpl, Wi, (minw_fits _ Lit). reflexivity. }
+  assert (De : depth_ok false env 0 = true).
+  { unfold lib_wf in Hlim. rewrite parse_full_ser in Hlim by exact We. destruct (depth_ok false env 0); [reflexivity|contradiction]. }
+  assert (Dh : dec_headers (tbstr mm) wu = Acc (mkH (Some (ser (tbstr mm))) (Some dp) (Some (ser wu)) (Some du))).
+  { unfold dec_headers. rewrite Dp. cbn [bind]. unfold csig_fuel. change 20%nat with (S 19). rewrite Du. cbn [bind].
+    rewrite (ensure_iv_same_view None op None ou _ _ _ _ Vp Vu). rewrite Iv. reflexivity. }
+  eexists. split.
+  - apply (signmsg_conforming_accepted (tbstr mm) wu plw (minw (len items)) items _ payload sigs We De Bpl Hni Di Dh).
+  - apply signmsg_verify_iff in Hv. apply signmsg_verify_iff. cbn [sm_payload sm_sigs sm_h] in *.
+    destruct Hv as (Hpay & Hne & Hl & bp & Mbp & HF).
+    split; [exact Hpay|]. split; [destruct sigs; [rewrite Es in Fi; inversion Fi|discriminate]|].
+    split; [rewrite map_length in *; rewrite <- Hl; symmetry; apply (forall2_length _ _ _ Fi)|].
+    exists bp. split.
+    + unfold marshal_protected in *. cbn [rawP glen gor hP] in *. cbn [Z.ltb] in Mbp. rewrite Ep in Mbp. inversion Mbp; subst bp.
+      pose proof (ser_nonempty (tbstr mm)). replace (0 <? len (ser (tbstr mm))) with true by (unfold len; lia). reflexivity.
+    + eapply sig_ok_all; eauto.
+Qed.
+Print Assumptions signmsg_wire_verifies.
 
 (* the premises are satisfiable: a message with alg and kid protected, a content type unprotected *)
 Example wire_example :
